@@ -43,6 +43,10 @@ func init() {
 			{ID: "R04q", Floor: 1, Doc: "methods that do not write to their receiver today stay so, sorting a slice of the receiver in place included (CarHeader.Matches compares, it does not reorder the caller's roots) (= R08o)", Run: ruleR08o},
 			{ID: "R04r", Floor: 3, Doc: "an option value is compared where the pinned tree compares it: a relational comparison of an Options field (or of a parameter named after one) in a function that has none today applies a limit where it does not belong — MaxIndexCidSize is checked by ShouldPut after the identity rule, not before it", Run: ruleR04r},
 			{ID: "R04s", Floor: 3, Doc: "a reopened store has the roots that are in the file: Resume refuses other roots before it touches anything (= R12a)", Run: ruleR12a},
+			{ID: "R04t", Floor: 1, Doc: "the writable stores carry no new state from call to call: what a put, has or get answers follows from the archive and the pinned fields (= R08s)", Run: ruleR08s},
+			{ID: "R04u", Floor: 1, Doc: "a block that need not be put does not end the batch: from the (false, nil) answer of ShouldPut, PutMany reaches no return without going round the loop", Run: ruleR04u},
+			{ID: "R04w", Floor: 1, Doc: "an identity CID is one whose multihash code is IDENTITY, whatever its digest length: store.IsIdentity answers `Code == IDENTITY` and nothing else", Run: ruleR04w},
+			{ID: "R04x", Floor: 1, Doc: "a section exactly at the size limit is read back like any other: the limit test is `>` (= R09b)", Run: ruleR09b},
 		},
 	})
 }
@@ -976,6 +980,9 @@ func ruleR04j(c *Ctx, r *Report) {
 			n++
 			root := rootFuncOf(fn)
 			okSite := false
+			if g, isG := fa.X.(*ssa.Global); isG && globalFieldInit[g] != nil {
+				okSite = true // the literal of a package-level value that nothing writes afterwards
+			}
 			if o, isF := root.Object().(*types.Func); isF {
 				if funcIs(o, modV2, "", "ApplyOptions") {
 					okSite = true
